@@ -665,3 +665,24 @@ pub fn gen_shape(src: &mut Src, o: &TreeOpts) -> ANode {
         _ => gen_element_tree(src, o),
     }
 }
+
+/// Turn a well-scoped tree into the layout only the API can build: no-namespace elements lose
+/// (3 in 4) the `xmlns=""` that protects them from an inherited default namespace, and
+/// namespaced elements (1 in 3) additionally declare their own namespace as the default. All
+/// namespaced names keep a usable binding; the serializer has to undeclare the default
+/// namespace on the fly for the stripped elements.
+pub fn strip_undeclarations(n: &mut ANode, src: &mut Src) {
+    if let ANode::Element(e) = n {
+        if e.name.ns.is_empty() && src.ratio(3, 4) {
+            e.decls.retain(|(p, u)| !(p.is_empty() && u.is_empty()));
+        }
+        if !e.name.ns.is_empty() && !e.decls.iter().any(|(p, _)| p.is_empty()) && src.ratio(1, 3) {
+            e.decls.push((String::new(), e.name.ns.clone()));
+        }
+    }
+    if let Some(ch) = n.children_mut() {
+        for c in ch.iter_mut() {
+            strip_undeclarations(c, src);
+        }
+    }
+}
